@@ -12,6 +12,15 @@
  *    "tasks":[{"task":"MF_TASK_..","id":n,"chan_nr":c,"calls":[[fn,set,flags,off,p3task],..]},..]}
  *   fn = l1s.current_time.fn at the call, set = index into "sets", flags =
  *   p3 >> 8 (MF_F_*), off = frame_offset argument, p3task = p3 & 0xff.
+ *
+ * Built with -DVF_CHANNR and a generated translation unit holding the static
+ * chan_nr2mf_task_mask() sliced from the working-tree layer1/l23_api.c (entry
+ * vf_chan_nr2mf_task_mask), the document additionally has
+ *    "neigh_modes":{"NONE":0,"PM":1},
+ *    "channr":[[chan_nr, none_lo, none_hi, pm_lo, pm_hi], ..]     chan_nr 0..255
+ *   the task mask l1ctl_rx_dm_est_req() hands to l1a_mftask_set() for that
+ *   channel number, per neighbour mode, as two 16-bit halves (bit 31 of the
+ *   mask would not fit a TLC integer otherwise).
  */
 #include <stdio.h>
 #include <stdint.h>
@@ -22,6 +31,11 @@
 #include <layer1/prim.h>
 #include <layer1/tdma_sched.h>
 #include <layer1/mframe_sched.h>
+
+#ifdef VF_CHANNR
+#include <l1ctl_proto.h>
+uint32_t vf_chan_nr2mf_task_mask(uint8_t chan_nr, uint8_t neigh_mode);
+#endif
 
 #define CYCLE (51 * 26 * 8)
 
@@ -94,6 +108,17 @@ int main(void)
 		}
 		printf("]}");
 	}
-	printf("\n]}\n");
+	printf("\n]");
+#ifdef VF_CHANNR
+	printf(",\n\"neigh_modes\":{\"NONE\":%d,\"PM\":%d},\"channr\":[", (int)NEIGH_MODE_NONE, (int)NEIGH_MODE_PM);
+	for (i = 0; i < 256; i++) {
+		uint32_t none = vf_chan_nr2mf_task_mask((uint8_t)i, NEIGH_MODE_NONE);
+		uint32_t pm = vf_chan_nr2mf_task_mask((uint8_t)i, NEIGH_MODE_PM);
+		printf("%s[%u,%u,%u,%u,%u]", i ? "," : "", i, (unsigned)(none & 0xffff), (unsigned)(none >> 16),
+		       (unsigned)(pm & 0xffff), (unsigned)(pm >> 16));
+	}
+	printf("]");
+#endif
+	printf("}\n");
 	return 0;
 }
